@@ -1417,7 +1417,7 @@ def _run_path(body, case, prefix, rec, timeout_ms, reset, want_witness, ctx_cls)
     return ctx.work
 
 
-def explore(body, case, max_paths=200000, timeout_ms=10000, budget_s=None, reset=None, want_witness=3, ctx_cls=None,
+def explore(body, case, max_paths=200000, timeout_ms=30000, budget_s=None, reset=None, want_witness=3, ctx_cls=None,
             fork_paths=False):
     """Explore all paths of body(I, case).  Returns a JSON-able record.
     fork_paths: every path runs in a forked child process, so that state the code under test leaves behind (including state
